@@ -298,7 +298,10 @@ func genC24(seed uint64, tier string) *Scenario {
 
 func genC53(seed uint64, tier string) *Scenario {
 	r, s := genBase(seed, tier)
-	s.Oracles = []string{"pool", "recv_payload", "bytes"}
+	// No leak oracle: grpc-go deliberately drops unread receive buffers on the
+	// floor when a stream ends (the GC reclaims them), so "every Get is
+	// followed by a Put" does not hold and the property does not demand it.
+	s.Oracles = []string{"recv_payload", "bytes"}
 	s.Pool = true
 	s.Client.DisableRetry = r.Chance(1, 2)
 	genTraffic(r, tier, s, true)
